@@ -8,8 +8,9 @@ Import ListNotations.
 Local Open Scope Z_scope.
 
 (** For ALL histories over read_batch k | read_batch k without levels | skip k | has_next | remaining |
-    re-creation (0 <= k < 2^31) and ALL cuts of a chunk into consistent non-empty pages, the column reader
-    (after the repair of DESIGN F5, commit "fix: column reader: copy packed values by non-null count") delivers
+    re-creation (0 <= k < 2^31) and ALL cuts of a chunk into consistent pages (empty pages included), the column reader
+    (after the repairs "fix: column reader: copy packed values by non-null count" (DESIGN F5) and "fix: column
+    reader: a data page without values is passed over") delivers
     exactly what a position in the list of rows delivers. *)
 Theorem cursor_refines : forall (A : Type) (garbage : A) max_def zc (pages : list (@page A)) ops,
   chunk_ok max_def pages -> Forall op_ok ops ->
